@@ -339,4 +339,7 @@ def aggregate(chk, results, key_fn, what_fn=None):
             what = (what_fn(r) if what_fn else None) or f"{r['isa']} {json.dumps(r['shape'])}: {st} {r.get('failed') or r.get('what')}"
             chk.report(key, what, r)
     cnt['solver_s'] = round(cnt['solver_s'], 1)
+    # headroom against the per-query time limit: the slowest queries of the run
+    slow = sorted(((q['s'], r['isa'], json.dumps(r['shape']), r['N'], q['q']) for r in results if 'queries' in r for q in r['queries']), reverse=True)[:8]
+    cnt['slowest_queries'] = [{'s': s_, 'isa': i_, 'shape': sh_, 'N': n_, 'q': q_} for s_, i_, sh_, n_, q_ in slow]
     return cnt, samples
